@@ -414,6 +414,9 @@ class Gen:
                 chosen = {p["name"] for p in optional}
             elif mode == "min" or self._saturated(depth):
                 chosen = set()
+            elif self.draw(st.integers(0, 7)) == 0:
+                # sparse shapes (exactly one optional property) are where alternatives of a union look most alike
+                chosen = {optional[self.draw(st.integers(0, len(optional) - 1))]["name"]}
             else:
                 n = len(optional)
                 mask = self.draw(st.integers(0, (1 << n) - 1))
